@@ -63,6 +63,7 @@ let parse_op (l : string) : op =
   | ["resplit"; "3"] -> Resplit true
   | _ -> failwith ("cannot parse op: " ^ l)
 
+let vmem = ref false
 let str_list l = "[" ^ String.concat "," (List.map (fun v -> string_of_int (int_of_n v)) l) ^ "]"
 
 let str_out = function
@@ -73,7 +74,10 @@ let str_out = function
   | OErr v -> "err " ^ string_of_int (int_of_n v)
   | ORef (off, v) -> Printf.sprintf "ref %d %d" (int_of_nat off) (int_of_n v)
   | OVal v -> "val " ^ string_of_int (int_of_n v)
-  | OSlices (off, h, t) -> Printf.sprintf "slices %d %s %s" (int_of_nat off) (str_list h) (str_list t)
+  | OSlices (off, h, t) ->
+    (* vmem: one contiguous slice through the mirror instead of two *)
+    if !vmem then Printf.sprintf "slices %d %s []" (int_of_nat off) (str_list (h @ t))
+    else Printf.sprintf "slices %d %s %s" (int_of_nat off) (str_list h) (str_list t)
   | ODst vs -> "dst " ^ str_list vs
   | OPanic -> "panic"
   | OPending -> "pending"
@@ -139,7 +143,8 @@ let run_file (path : string) =
      | Some s ->
        let inslots = if s.freed then [] else List.filter (fun v -> v <> N0) s.slots in
        let live = List.sort compare (List.map int_of_n (if s.owned then inslots @ !lost else [])) in
-       Printf.printf "live=[%s]\n" (String.concat "," (List.map string_of_int live))
+       Printf.printf "live=[%s]\n" (String.concat "," (List.map string_of_int live));
+       if !vmem then print_endline "maps=0"      (* both views are unmapped once the buffer is gone *)
      | None -> ());
     cur := None; lost := [] in
   (try
@@ -149,6 +154,7 @@ let run_file (path : string) =
        else if String.length l > 3 && String.sub l 0 3 = "cfg" then begin
          finish ();
          conc := is_conc l;
+         vmem := List.mem "vmem=1" (String.split_on_char ' ' l);
          match init (parse_cfg l) with
          | None -> print_endline "init panic"
          | Some s -> cur := Some s; print_endline ("init ok | " ^ obs s ^ " | ev= | at=")
@@ -195,6 +201,7 @@ let spec_file (path : string) =
        else if l.[0] = '#' then print_endline l
        else if String.length l > 3 && String.sub l 0 3 = "cfg" then begin
          okf := true;
+         vmem := List.mem "vmem=1" (String.split_on_char ' ' l);
          match a_init (parse_cfg l) with
          | None -> cur := None; print_endline "+ init panic"
          | Some a -> cur := Some a; print_endline ("+ init ok | " ^ sobs a ^ " | ev=")
@@ -593,6 +600,50 @@ let gen_arand seed count lo hi =
        with Exit -> ())
   done
 
+
+(* model vrand <seed> <count> <min> <max> : histories for the vmem build: heap buffers of 1-3 pages (4096 items per page
+   unit), every iterator first moved next to the physical end, then random operations around the seam *)
+let gen_vrand seed count lo hi =
+  seed_rng seed;
+  for h = 1 to count do
+    let g = { nextv = 100 } in
+    let owned = chance 30 in
+    let pages = pick [1; 1; 2; 3] in
+    let len = 4096 * pages in
+    let kind = pick ["conc"; "local"] and st = pick [2; 3; 3] in
+    let item = if owned then pick ["owned"; "owned24"; "owned4"] else "plain" in
+    let ctor = if owned then "zeroed" else pick ["zeroed"; "default"; "from"] in
+    let init = if ctor = "from" then List.init len (fun i -> 1 + (i mod 250)) else List.init len (fun _ -> 0) in
+    Printf.printf "# vrand seed=%d n=%d\ncfg kind=%s store=heap stages=%d item=%s ctor=%s vmem=1 init=%s\n" seed h kind st item ctor (csv init);
+    let cfg = { c_init = List.map n_of_int init; c_worker = (st = 3); c_heap = true; c_owned = owned } in
+    match init_state_of cfg with
+    | None -> ()
+    | Some s0 ->
+      let s = ref s0.base in
+      let emit t = print_endline t; let (s', _) = step !s (parse_op t) in s := s' in
+      (* go next to the seam: leave 1..12 slots before the physical end *)
+      let near = len - 1 - rnd 12 in
+      if owned then begin
+        (* owned items: fill by slices of clones so that what is published is occupied (K3), then consume *)
+        let rec fill k = if k > 0 then (let n = min k 900 in emit ("pushcloneinit " ^ csv (fresh_vals g n)); if st = 3 then emit (Printf.sprintf "adv W %d" n);
+                                        emit (Printf.sprintf "cloneslice %d" 0); let rec eat j = if j > 0 then (let m = min j 300 in emit (Printf.sprintf "cloneslice %d" m); eat (j - m)) in eat n; fill (k - n)) in
+        fill (min near 1800)
+      end else begin
+        emit (Printf.sprintf "adv P %d" near);
+        if st = 3 then emit (Printf.sprintf "adv W %d" near);
+        emit (Printf.sprintf "adv C %d" near)
+      end;
+      let n = lo + rnd (hi - lo + 1) in
+      (try
+         for _ = 1 to n do
+           if !s.freed then raise Exit;
+           let t = gen_op g !s in
+           let w = List.hd (String.split_on_char ' ' t) in
+           if w <> "resplit" && w <> "dropbuf" && w <> "getmult" then emit t
+         done
+       with Exit -> ())
+  done
+
 (* ---------- exhaustive transition coverage (G-exh) over the index / cache / detached layer ---------- *)
 let key (s : mstate) : string = obs s ^ (if s.hasW then "W" else "-")
   ^ String.concat "" (List.map (fun k -> if (it_of k s).det then "d" else "a") [P; W; C])
@@ -699,6 +750,7 @@ let () =
   | [_; "rando"; seed; count; lo; hi] -> force_owned := true; gen_rand (int_of_string seed) (int_of_string count) (int_of_string lo) (int_of_string hi)
   | [_; "lifeo"; seed; count] -> force_owned := true; gen_life (int_of_string seed) (int_of_string count)
   | [_; "randv"; seed; count; lo; hi] -> gen_rand ~variants:true (int_of_string seed) (int_of_string count) (int_of_string lo) (int_of_string hi)
+  | [_; "vrand"; seed; count; lo; hi] -> gen_vrand (int_of_string seed) (int_of_string count) (int_of_string lo) (int_of_string hi)
   | [_; "life"; seed; count] -> gen_life (int_of_string seed) (int_of_string count)
   | [_; "bfs"; maxlen; limit] -> gen_bfs (int_of_string maxlen) (int_of_string limit)
   | _ -> prerr_endline "usage: model seq <history-file>... | rand <seed> <count> <min> <max> | bfs <maxlen> <limit>"; exit 2
